@@ -126,10 +126,18 @@ def agent(db):
     return 0
 
 
-def crashtxn(db, mode, cache, sync):
+def _connect(db, sector):
+    """sector 4096: powersafe overwrite off (URI psow=0), SQLite then assumes 4096-byte sectors and fills the journal
+    header's sector with copies of the header, min(page size, sector) bytes per write"""
+    if int(sector) == 4096:
+        return sqlite3.connect("file:%s?psow=0" % db, uri=True, isolation_level=None, timeout=0)
+    return sqlite3.connect(db, isolation_level=None, timeout=0)
+
+
+def crashtxn(db, mode, cache, sync, sector=512):
     """the transaction whose crash points C09 enumerates: an in-place, fixed-width UPDATE of every row, with a
     tiny page cache so that dirty pages spill to the database file before the commit"""
-    con = sqlite3.connect(db, isolation_level=None, timeout=0)
+    con = _connect(db, sector)
     con.execute("PRAGMA journal_mode=%s" % mode)
     con.execute("PRAGMA cache_size=%d" % cache)
     con.execute("PRAGMA synchronous=%s" % sync)
@@ -140,10 +148,10 @@ def crashtxn(db, mode, cache, sync):
     return 0
 
 
-def crashnew(db, mode, cache, sync, ps):
+def crashnew(db, mode, cache, sync, ps, sector=512):
     """the very first transaction of a brand-new database: every page it writes lies beyond the original (empty)
     file; recovery truncates the file back to nothing"""
-    con = sqlite3.connect(db, isolation_level=None, timeout=0)
+    con = _connect(db, sector)
     con.execute("PRAGMA page_size=%d" % ps)
     con.execute("PRAGMA journal_mode=%s" % mode)
     con.execute("PRAGMA cache_size=%d" % cache)
@@ -159,9 +167,9 @@ def crashnew(db, mode, cache, sync, ps):
 
 if __name__ == "__main__":
     if sys.argv[1] == "crashnew":
-        sys.exit(crashnew(sys.argv[2], sys.argv[3], int(sys.argv[4]), sys.argv[5], int(sys.argv[6])))
+        sys.exit(crashnew(sys.argv[2], sys.argv[3], int(sys.argv[4]), sys.argv[5], int(sys.argv[6]), int(sys.argv[7]) if len(sys.argv) > 7 else 512))
     if sys.argv[1] == "crashtxn":
-        sys.exit(crashtxn(sys.argv[2], sys.argv[3], int(sys.argv[4]), sys.argv[5] if len(sys.argv) > 5 else "FULL"))
+        sys.exit(crashtxn(sys.argv[2], sys.argv[3], int(sys.argv[4]), sys.argv[5] if len(sys.argv) > 5 else "FULL", int(sys.argv[6]) if len(sys.argv) > 6 else 512))
     if sys.argv[1] == "agent":
         sys.exit(agent(sys.argv[2]))
     if sys.argv[1] == "commit":
